@@ -666,20 +666,22 @@ def run(tier, replay=None):
     procs = max(2, min(16, os.cpu_count() or 4))
 
     # 1 + 2a. TLC: exhaustive check, defect variants, history dumps - run side by side
-    with ThreadPoolExecutor(max_workers=10) as ex:
-        # the small configuration carries -coverage (no dead action); the larger ones run without
-        f_mc = ex.submit(tlc.model_check, SPEC, 'WsFraming', 'MC_WsFraming.cfg', coverage=True, workers=8, timeout=1500)
+    with ThreadPoolExecutor(max_workers=12) as ex:
+        # a one-frame configuration carries -coverage (no dead action); the larger ones run without it
+        f_cov = ex.submit(tlc.model_check, SPEC, 'WsFraming', 'MC_WsFraming_cov.cfg', coverage=True, workers=2, timeout=1500)
+        f_mc = ex.submit(tlc.model_check, SPEC, 'WsFraming', 'MC_WsFraming.cfg', workers=8, timeout=1500)
         f_more = [] if quick else [ex.submit(tlc.model_check, SPEC, 'WsFraming', cfg, workers=8, timeout=2400)
                                    for cfg in ('MC_WsFraming_thorough.cfg', 'MC_WsFraming_lens_thorough.cfg')]
         f_def = {d: ex.submit(tlc.run_tlc, SPEC, 'WsFraming', cfg, workers=2) for d, cfg in DEFECT_CFGS.items()}
         f_hist = [ex.submit(dump_histories, cfg, 2400, 4) for cfg in HIST_CFGS[tier]]
         mc = f_mc.result()
+        mcov = f_cov.result()
         more = [f.result() for f in f_more]
         gens = {d: f.result() for d, f in f_def.items()}
         dumps = [f.result() for f in f_hist]
     lap('tlc_model_and_histories')
     # `\E t \in Targets : Read(t)` has a state-dependent range: TLC reports it under Next
-    cov = {m.group(1): int(m.group(2)) for m in re.finditer(r'^<(\w+) line [^>]*>: (\d+):\d+', mc.out, re.M)}
+    cov = {m.group(1): int(m.group(2)) for m in re.finditer(r'^<(\w+) line [^>]*>: (\d+):\d+', mcov.out, re.M)}
     for act in ('Send', 'Next', 'AppWrite', 'AppClose'):
         if not cov.get(act):
             raise tlc.MachineryError('vacuous model: action %s never taken (%s)' % (act, cov))
@@ -723,7 +725,7 @@ def run(tier, replay=None):
     # 4. TLC judges every recorded trace
     traces = [as_trace(c, lines) for c, (lines, aux) in zip(cases, results)]
     verdicts, stats = tlc.validate_traces(SPEC, 'WsFramingTrace', 'WsFramingTrace.cfg', traces,
-                                          shards=8 if quick else 16, timeout=3000)
+                                          shards=12 if quick else 16, timeout=3000)
     lap('trace_validation')
     accepted = []
     n_cmp = n_match = 0
